@@ -1372,7 +1372,10 @@ func (h *Hashgraph) ProcessSigPool() error {
 				"index": bs.Index,
 				"msg":   err,
 			}).Error("Verifying Block signature")
-			return err
+			// a signature that cannot be decoded will never become valid: drop
+			// it instead of failing this and every later call on it
+			h.PendingSignatures.Remove(bs.Key())
+			continue
 		}
 		if !valid {
 			bytesBlock, _ := block.Marshal()
